@@ -426,7 +426,14 @@ class IncludeHandler(Handler):
             return
 
         include_slug = clean_slug(argument)
-        include_fileid = self.slug_fileid_mapping.get(include_slug)
+        # The argument usually names a file with its extension: that very file wins over
+        # another one which differs from it only in the extension
+        named_fileid = FileId(argument.lstrip("/"))
+        include_fileid = (
+            named_fileid
+            if named_fileid in self.pages
+            else self.slug_fileid_mapping.get(include_slug)
+        )
         # Some `include` FileIds in the mapping include file extensions (.yaml) and others do not
         # This will likely be resolved by DOCSP-7159 https://jira.mongodb.org/browse/DOCSP-7159
         if include_fileid is None:
